@@ -12,6 +12,7 @@ var props = map[string]func(*check.Ctx) int{
 	"C01": check.C01,
 	"C02": check.C02,
 	"C08": check.C08,
+	"C09": check.C09,
 	"C10": check.C10,
 	"C11": check.C11,
 	"C03": check.C03,
